@@ -14,6 +14,7 @@ SCALAR_T = ('double', 'float', 'long double', 'int', 'unsigned int', 'bool', 'lo
 CALLS = ('CallExpr', 'CXXMemberCallExpr', 'CXXOperatorCallExpr', 'CXXConstructExpr', 'CXXTemporaryObjectExpr')
 CAP = 160
 DECL = ('@decl', True)       # marks conjunctions that describe 'declared, not yet assigned on this path'
+MASKDECL = ('@maskdecl', True)   # the placeholder is in place because a gating mask test failed
 DECL_TRUE = frozenset([frozenset([DECL])])
 
 
@@ -44,7 +45,9 @@ def merge_complementary(d):
     def absorb(cs):
         out = []
         for c in sorted(cs, key=len):
-            if any(o <= c for o in out):
+            # a conjunction that carries the mask-gating marker is kept beside an unmarked weaker one: the marker
+            # records *why* the placeholder is in place, which the weaker conjunction does not
+            if any(o <= c and ((MASKDECL in o) == (MASKDECL in c)) for o in out):
                 continue
             out.append(c)
         return out
@@ -59,6 +62,8 @@ def merge_complementary(d):
             a = cur[i]
             for j in range(i + 1, n):
                 b = cur[j]
+                if (MASKDECL in a) != (MASKDECL in b):
+                    continue          # consensus would smear the marker over conjunctions it does not explain
                 opp = None
                 bad = False
                 for l in a:
@@ -202,8 +207,12 @@ class Lic:
         self.key_bits = key_bits or {}
         self.zero_then_assigned = self._zero_then_assigned() if stale_zero else set()
         self.mask_only_keys = set()
+        self.gating = {}
         if stale_zero == 'mask':
             self.zero_then_assigned = self._mask_gated_placeholders()
+            self.mask_only_keys = {'v:' + d for d in self.zero_then_assigned}
+        if stale_zero == 'mask2':
+            self.zero_then_assigned, self.gating = self._mask_gated_any()
             self.mask_only_keys = {'v:' + d for d in self.zero_then_assigned}
         if fn.cfg:
             self._solve()
@@ -244,6 +253,34 @@ class Lic:
             if ok:
                 out.add(d)
         return out
+
+    def _mask_gated_any(self):
+        """placeholders with at least one assignment inside the then-branch of a pure mask test (anywhere); returns
+        (candidates, {'v:decl': set of CFG blocks whose terminator is such a gating test})."""
+        fn = self.fn
+        cand = self._zero_then_assigned_any()
+        cond_block = {}
+        for b, blk in fn.blocks.items():
+            c = blk.get('cond')
+            if c is not None:
+                cond_block[fn.strip_casts(c)] = b
+                cond_block[c] = b
+        out = set()
+        gating = {}
+        for d, sites in cand.items():
+            for i in sites:
+                child = i
+                for a in fn.ancestors(i):
+                    an = fn.nodes[a]
+                    if an['k'] == 'IfStmt' and an.get('then', -1) >= 0 and child == an['then']:
+                        pure, has_and = self._pure_mask_cond(an['cond'], 0)
+                        if pure and has_and:
+                            b = cond_block.get(an['cond'], cond_block.get(fn.strip_casts(an['cond'])))
+                            if b is not None:
+                                out.add(d)
+                                gating.setdefault('v:' + d, set()).add(b)
+                    child = a
+        return out, gating
 
     def _under_mask_test(self, nid):
         """is node nid nested in at least one if whose condition is a pure test of mask bits (x & CONST), and in
@@ -638,6 +675,10 @@ class Lic:
             return
         alts = [a | self.entry_lits for a in alts]
         vu = frozenset(c - {DECL} for c in vu)
+        if self.gating:
+            vu = frozenset(c for c in vu if MASKDECL in c)      # only what the mask gating explains
+            if not vu:
+                return
         w = satisfiable(alts, vu, self.ax)
         if w is not None:
             self.reports.append((e, what, vu, w))
@@ -683,7 +724,7 @@ class Lic:
                     for p, edge in preds[b]:
                         if p not in out:
                             continue
-                        contrib = self._edge_state(out[p], edge)
+                        contrib = self._edge_state(out[p], edge, p)
                         if contrib is None:
                             continue
                         st_in = contrib if st_in is None else self._join(st_in, contrib, p, b)
@@ -717,11 +758,11 @@ class Lic:
                     throws = blk.get('noreturn') or any(kind == 'stmt' and fn.nodes[e]['k'] == 'CXXThrowExpr'
                                                         for kind, e in fl._elts[b])
                     if not throws:
-                        es = self._edge_state(st, edge)
+                        es = self._edge_state(st, edge, b)
                         if es is not None:
                             self.exit_states.append((b, es))
 
-    def _edge_state(self, st, edge):
+    def _edge_state(self, st, edge, blk=None):
         """state carried along a CFG edge: non-trivial uninit-conditions are conjoined with the
         licence-relevant literals of the branch taken."""
         if edge is None or edge == TRUE:
@@ -745,6 +786,14 @@ class Lic:
                 if frozenset() in r2 or not r2:
                     out[key] = u
                     continue
+                if self.gating:
+                    if blk is not None and blk in self.gating.get(key, ()):
+                        # leaving the test that gates an assignment of this placeholder on the side where the bits
+                        # are not set: from here on the placeholder is in place *because of the mask*
+                        r2 = frozenset((c | {MASKDECL}) if any(not pol for a_, pol in c) else c for c in r2)
+                    else:
+                        out[key] = u          # other mask tests say nothing about this placeholder
+                        continue
             bits = self.key_bits.get(key)
             if bits is not None:
                 # only the mask bits that gate this cell matter for it; other bits would just multiply cases
